@@ -479,6 +479,51 @@ func ruleClosedEnums(c *Ctx) {
 	c.Check(okMS && len(callsIn(mlc, false, allOf)) > 0, rule, "constraints in "+fnName(mlc), "every constraint must match (AllOf … MatchStore)", P.pos(mlc.Pos()), "")
 }
 
+// ruleLabelMatchAtoms: a store without the label never matches `in` and always
+// matches `notIn`, whatever the value list holds (an empty string among the
+// values must not make "label unset" a match); and two stores are told apart at
+// the first location level at which both carry a value — an unset level is
+// skipped, it does not end the comparison.
+func ruleLabelMatchAtoms(c *Ctx) {
+	P := c.P
+	rule := c.Prop + "/closed-enums"
+	ms := P.Method("server/schedule/placement", "LabelConstraint", "MatchStore")
+	getLV := F(P.Method("server/core", "StoreInfo", "GetLabelValue"))
+	set := guardRel("the store carries the label (value != \"\")", "!=", derived(resultOfCall(getLV), 3), isConstStr("")) // the value sits in a cell: a closure captures it
+	for _, name := range []string{"AnyOf", "NoneOf"} {
+		f := F(P.Func("pkg/slice", name))
+		c.need(rule, ms, "value-list test "+name, instrCallMatcher(f), []Ev{set}, all, "the value list is consulted only for a store that carries the label")
+	}
+	cl := P.Method("server/core", "StoreInfo", "CompareLocation")
+	c.saw(fnName(cl))
+	okRet := true
+	n := 0
+	for _, b := range cl.Blocks {
+		r, ok := b.Instrs[len(b.Instrs)-1].(*ssa.Return)
+		if !ok || len(r.Results) != 1 {
+			continue
+		}
+		if k, isC := constInt(retVal(r, 0)); isC && k == -1 {
+			n++
+			if loopsContain(cl, b) {
+				okRet = false
+			}
+		}
+	}
+	c.Check(okRet && n > 0, rule, "\"same location\" answer of "+fnName(cl), "-1 is returned only after every label level was looked at (an unset level is skipped)", P.pos(cl.Pos()), "")
+	ne := guardRel("both stores carry the level's label", "!=", resultOfCall(getLV), isConstStr(""))
+	_ = ne
+	nonEmpty := 0
+	for _, b := range cl.Blocks {
+		for _, ins := range b.Instrs {
+			if bo, ok := ins.(*ssa.BinOp); ok && bo.Op == token.NEQ && resultOfCall(getLV)(bo.X) && isConstStr("")(bo.Y) {
+				nonEmpty++
+			}
+		}
+	}
+	c.Check(nonEmpty >= 2, rule, "unset labels in "+fnName(cl), "both values are tested for being set before they are compared", P.pos(cl.Pos()), fmt.Sprint(nonEmpty))
+}
+
 // ruleFitInputs: what the search works on. Every peer of the region becomes a
 // candidate (a peer dropped here is in no rule and not an orphan either), and a
 // rule's fit carries the isolation score of exactly the peers selected for it,
@@ -549,6 +594,6 @@ func init() {
 		c.Group("C12/fit-inputs", "every region peer is a candidate; every rule fit carries the isolation score of its selected peers", func() { ruleFitInputs(c) })
 		c.Group("C12/search-state", "enumeration marks/unmarks candidates in every iteration; a better fit clears later fits before re-searching; candidates satisfy constraints ∧ loose role ∧ unselected; orphans are exactly the unselected peers", func() { ruleFitSearchDiscipline(c) })
 		c.Group("C12/satisfied", "satisfied ⇔ count filled with matching roles for every rule and no orphan", func() { ruleSatisfiedAtoms(c) })
-		c.Group("C12/closed-enums", "role and operator switches handle every constant; label matching handles nil stores, exclusive labels and every constraint", func() { ruleClosedEnums(c) })
+		c.Group("C12/closed-enums", "role and operator switches handle every constant; label matching handles nil stores, exclusive labels and every constraint", func() { ruleClosedEnums(c); ruleLabelMatchAtoms(c) })
 	})
 }
